@@ -114,7 +114,46 @@ theorem std_zigzag_perm (v : Nat) :
 theorem dataCount_all (v : Nat) (h1 : 1 ≤ v) (h40 : v ≤ 40) : dataCount v = rawDataModules v := by
   have h : v = 1 ∨ v = 2 ∨ v = 3 ∨ v = 4 ∨ v = 5 ∨ v = 6 ∨ v = 7 ∨ v = 8 ∨ v = 9 ∨ v = 10 ∨ v = 11 ∨ v = 12 ∨ v = 13 ∨ v = 14 ∨ v = 15 ∨ v = 16 ∨ v = 17 ∨ v = 18 ∨ v = 19 ∨ v = 20 ∨ v = 21 ∨ v = 22 ∨ v = 23 ∨ v = 24 ∨ v = 25 ∨ v = 26 ∨ v = 27 ∨ v = 28 ∨ v = 29 ∨ v = 30 ∨ v = 31 ∨ v = 32 ∨ v = 33 ∨ v = 34 ∨ v = 35 ∨ v = 36 ∨ v = 37 ∨ v = 38 ∨ v = 39 ∨ v = 40 := by omega
   rcases h with rfl | rfl | rfl | rfl | rfl | rfl | rfl | rfl | rfl | rfl | rfl | rfl | rfl | rfl | rfl | rfl | rfl | rfl | rfl | rfl | rfl | rfl | rfl | rfl | rfl | rfl | rfl | rfl | rfl | rfl | rfl | rfl | rfl | rfl | rfl | rfl | rfl | rfl | rfl | rfl
-  all_goals first | exact Count.dataCount_1 | exact Count.dataCount_2 | exact Count.dataCount_3 | exact Count.dataCount_4 | exact Count.dataCount_5 | exact Count.dataCount_6 | exact Count.dataCount_7 | exact Count.dataCount_8 | exact Count.dataCount_9 | exact Count.dataCount_10 | exact Count.dataCount_11 | exact Count.dataCount_12 | exact Count.dataCount_13 | exact Count.dataCount_14 | exact Count.dataCount_15 | exact Count.dataCount_16 | exact Count.dataCount_17 | exact Count.dataCount_18 | exact Count.dataCount_19 | exact Count.dataCount_20 | exact Count.dataCount_21 | exact Count.dataCount_22 | exact Count.dataCount_23 | exact Count.dataCount_24 | exact Count.dataCount_25 | exact Count.dataCount_26 | exact Count.dataCount_27 | exact Count.dataCount_28 | exact Count.dataCount_29 | exact Count.dataCount_30 | exact Count.dataCount_31 | exact Count.dataCount_32 | exact Count.dataCount_33 | exact Count.dataCount_34 | exact Count.dataCount_35 | exact Count.dataCount_36 | exact Count.dataCount_37 | exact Count.dataCount_38 | exact Count.dataCount_39 | exact Count.dataCount_40
+  · exact Count.dataCount_1
+  · exact Count.dataCount_2
+  · exact Count.dataCount_3
+  · exact Count.dataCount_4
+  · exact Count.dataCount_5
+  · exact Count.dataCount_6
+  · exact Count.dataCount_7
+  · exact Count.dataCount_8
+  · exact Count.dataCount_9
+  · exact Count.dataCount_10
+  · exact Count.dataCount_11
+  · exact Count.dataCount_12
+  · exact Count.dataCount_13
+  · exact Count.dataCount_14
+  · exact Count.dataCount_15
+  · exact Count.dataCount_16
+  · exact Count.dataCount_17
+  · exact Count.dataCount_18
+  · exact Count.dataCount_19
+  · exact Count.dataCount_20
+  · exact Count.dataCount_21
+  · exact Count.dataCount_22
+  · exact Count.dataCount_23
+  · exact Count.dataCount_24
+  · exact Count.dataCount_25
+  · exact Count.dataCount_26
+  · exact Count.dataCount_27
+  · exact Count.dataCount_28
+  · exact Count.dataCount_29
+  · exact Count.dataCount_30
+  · exact Count.dataCount_31
+  · exact Count.dataCount_32
+  · exact Count.dataCount_33
+  · exact Count.dataCount_34
+  · exact Count.dataCount_35
+  · exact Count.dataCount_36
+  · exact Count.dataCount_37
+  · exact Count.dataCount_38
+  · exact Count.dataCount_39
+  · exact Count.dataCount_40
 
 /-- `std_zigzag_count`: for versions 1..40 the number of data modules (counted over the grid with
     `isFunction`) is the number derived from the function-pattern geometry, so the placement order
@@ -142,16 +181,17 @@ theorem mask_alt_equiv (i j : Nat) :
 /-- masking is an involution on the data modules and conditions are periodic: condition `k` only
     depends on the residues of row and column modulo 12 -/
 theorem mask_periodic (k x y : Nat) : maskBit k (x + 12) y = maskBit k x y ∧ maskBit k x (y + 12) = maskBit k x y := by
-  have hk : k = 0 ∨ k = 1 ∨ k = 2 ∨ k = 3 ∨ k = 4 ∨ k = 5 ∨ k = 6 ∨ k = 7 ∨ 8 ≤ k := by omega
-  rcases hk with h | h | h | h | h | h | h | h | h
-  all_goals first
-    | (subst h; simp only [maskBit]
-       have e1 : y * (x + 12) = y * x + 12 * y := by rw [Nat.mul_add, Nat.mul_comm y 12]
-       have e2 : (y + 12) * x = y * x + 12 * x := by rw [Nat.add_mul]
-       rw [e1, e2]
-       generalize y * x = t
-       constructor <;> rw [Bool.eq_iff_iff] <;> simp only [beq_iff_eq] <;> omega)
-    | (unfold maskBit; split <;> first | omega | exact ⟨rfl, rfl⟩)
+  have e1 : y * (x + 12) = y * x + 12 * y := by rw [Nat.mul_add, Nat.mul_comm y 12]
+  have e2 : (y + 12) * x = y * x + 12 * x := by rw [Nat.add_mul]
+  have small : ∀ k, k < 8 → maskBit k (x + 12) y = maskBit k x y ∧ maskBit k x (y + 12) = maskBit k x y := by
+    intro k hk8
+    have hk' : k = 0 ∨ k = 1 ∨ k = 2 ∨ k = 3 ∨ k = 4 ∨ k = 5 ∨ k = 6 ∨ k = 7 := by omega
+    rcases hk' with h | h | h | h | h | h | h | h <;> subst h <;> simp only [maskBit, e1, e2] <;>
+      generalize y * x = t <;> constructor <;> first | trivial | (rw [Bool.eq_iff_iff]; simp only [beq_iff_eq]; omega)
+  by_cases hk8 : k < 8
+  · exact small k hk8
+  · unfold maskBit
+    split <;> first | omega | exact ⟨rfl, rfl⟩
 
 /-! ### non-vacuity -/
 
